@@ -16,9 +16,10 @@ FLOATS = ["0x1.8p+1", "0x0.0p+0", "-0x0.0p+0", "nan", "inf", "-inf", "0x1.999999
 
 
 class VGen:
-    def __init__(self, rnd, supported=True, share=0.08):
+    def __init__(self, rnd, supported=True, share=0.08, objects=False):
         self.r = rnd
         self.sup = supported
+        self.objects = objects and supported     # user objects in the supported stream (C05 asks for them; the other users keep their streams)
         self.n_identity = 0
         self.share = share
 
@@ -226,7 +227,7 @@ class VGen:
                                   ["mydict", [[["str", "a"], self.value(depth - 1)]]],
                                   ["userobj", "Plain", [["attr", self.value(depth - 1)], ["key_types", ["int", 1]]][: self.r.randint(1, 2)]],
                                   ["mydefaultdict", "list", [[["str", "a"], self.value(depth - 1)]]]])
-        if self.r.random() < 0.6:
+        if self.objects and self.r.random() < 0.6:
             return self.userobj(depth)
         self.ident()
         return ["list", [self.value(depth - 1) for _ in range(n)]]
@@ -250,8 +251,8 @@ class VGen:
         return ["list", [["userobj", "Plain", [["a", self.scalar()]]], ["ref", self.r.randrange(1 << 16)], ["userobj", "WithState", [["payload", ["ref", self.r.randrange(1 << 16)]]]]]]
 
 
-def gen_value(rnd, supported=True, max_depth=3):
-    g = VGen(rnd, supported)
+def gen_value(rnd, supported=True, max_depth=3, objects=False):
+    g = VGen(rnd, supported, objects=objects)
     return g.value(rnd.randint(0, max_depth))
 
 
